@@ -236,6 +236,19 @@ func mapStr(m map[string]string) string {
 	return "{" + strings.Join(parts, ",") + "}"
 }
 
+// labelMapsE is labelMaps with the empty string as an additional VALUE (legal in Kubernetes: a marker label).
+func labelMapsE(vals []string) []map[string]string {
+	out := labelMaps(append(append([]string{}, vals...), "\x00"))
+	for _, m := range out {
+		for k, v := range m {
+			if v == "\x00" {
+				m[k] = ""
+			}
+		}
+	}
+	return out
+}
+
 // labelMaps returns every map assigning to each of K1, K2 either nothing or one of vals;
 // the first element is the empty (non-nil) map.
 func labelMaps(vals []string) []map[string]string {
@@ -514,7 +527,16 @@ func tAll() *Term {
 
 func tFN(name string, p func(metav1.Object) bool) *Term {
 	return &Term{Ctor: "FN", Name: "FN(" + name + ")", Key: name, Depth: 1, HasFN: true, Lvl: 1, ref: p,
-		mk: func() filter.Filter { return filter.FN(func(o metav1.Object) bool { return p(o) }) }}
+		mk: func() filter.Filter { return opaqueFN(p) }}
+}
+
+// opaqueFN: every FN filter of the universe is a closure of ONE function literal (not inlined, so the compiler
+// cannot clone it per call site): the values share their code pointer and differ in what they capture only - an
+// equality that looks at the function pointer must not take them for equal.
+//
+//go:noinline
+func opaqueFN(p func(metav1.Object) bool) filter.Filter {
+	return filter.FN(func(o metav1.Object) bool { return p(o) })
 }
 
 func idStr(id nsname.NSName) string {
@@ -975,6 +997,9 @@ func coreAtoms() []*Term {
 		{&LS{ML: ml(K1, "1"), Exprs: []Req{{K2, "Exists", nil}}}, 3},
 		{&LS{Exprs: []Req{{K1, "In", v("1", "2")}, {K2, "NotIn", v("2")}}}, 3},
 		{&LS{ML: ml(K2, "1"), Exprs: []Req{{K1, "DoesNotExist", nil}}}, 3},
+		// two requirements on one key (both must hold)
+		{&LS{ML: ml(K2, "1"), Exprs: []Req{{K2, "NotIn", v("2")}}}, 2},
+		{&LS{Exprs: []Req{{K1, "Exists", nil}, {K1, "NotIn", v("1")}}}, 2},
 	} {
 		out = append(out, lvl(tLabelSelector(x.l), x.lv))
 	}
@@ -985,7 +1010,8 @@ func coreAtoms() []*Term {
 		lvl(tSelector(Sel{Reqs: []Req{{K1, "!=", v("1")}}}), 1),
 		lvl(tSelector(Sel{Reqs: []Req{{K1, "=", v("1")}}}), 3),
 		lvl(tSelector(Sel{Reqs: []Req{{K1, "==", v("2")}}}), 3),
-		lvl(tSelector(Sel{Reqs: []Req{{K2, "Exists", nil}, {K1, "NotIn", v("1", "2")}}}), 3))
+		lvl(tSelector(Sel{Reqs: []Req{{K2, "Exists", nil}, {K1, "NotIn", v("1", "2")}}}), 3),
+		lvl(tSelector(Sel{Reqs: []Req{{K2, "Exists", nil}, {K2, "!=", v("1")}}}), 2))
 	return out
 }
 
@@ -1017,6 +1043,7 @@ func c17Ingresses() []Ing {
 		{NS: "a", Name: "i2", Rules: [][]string{{"x", "y"}}},
 		{NS: "b", Name: "i3", HasDef: true, Default: "x", Rules: [][]string{nil, {"y"}}},
 		{NS: "a", Name: "i4", HasDef: true, Default: "", Rules: [][]string{{"z"}}},
+		{NS: "a", Name: "i5", Rules: [][]string{{"x", ""}}}, // a path whose backend names no service (resource backend)
 	}
 }
 
@@ -1037,10 +1064,10 @@ func typedAtoms() []*Term {
 		}
 	}
 	out = append(out, lvl(tSelMatch(nil), 2))
-	for _, m := range labelMaps([]string{"1", "2"}) {
+	for _, m := range labelMapsE([]string{"1", "2"}) {
 		l := 3
 		switch mapStr(m) {
-		case "{}", "{k1=1}", "{k1=1,k2=1}":
+		case "{}", "{k1=1}", "{k1=1,k2=1}", "{k1=}", "{k2=}":
 			l = 2
 		}
 		out = append(out, lvl(tSelMatch(m), l))
